@@ -482,7 +482,8 @@ pub fn random_spec(rng: &mut Rng, ver: (u8, u8, u8), size: usize) -> Spec {
 	let absence = *rng.pick(&[0usize, 0, 1, 3, 5, 9]);
 	let frames = if nchars == 0 && !gte(v, (2, 2)) { vec![] } else { { let rb = rng.chance(1, 2); let mi = *rng.pick(&[0usize, 2, 15]); gen_frames(rng, v, nchars, n, rb, absence, mi) } };
 	let gecko_blocks = if gte(v, (3, 3)) { *rng.pick(&[0usize, 0, 1, 1, 2, 3, 7]) } else { 0 };
-	let gecko_tail = if gecko_blocks > 0 { rng.below(512) } else { 0 };
+	// tail 0 = the list fills its last 512-byte block exactly
+	let gecko_tail = if gecko_blocks > 0 && !rng.chance(1, 5) { rng.below(512) } else { 0 };
 	let ptypes = ports.iter().map(|_| rng.below(3) as u8).collect();
 	Spec {
 		ver,
